@@ -3,6 +3,7 @@ package main
 
 import (
 	"verif/dsim/harness"
+	"verif/dsim/props/c09"
 	"verif/dsim/props/c15"
 	"verif/dsim/props/c16"
 	"verif/dsim/props/c17"
@@ -12,6 +13,7 @@ import (
 
 func main() {
 	reg := map[string]harness.Harness{
+		"C09": c09.H{},
 		"C15": c15.H{},
 		"C16": c16.H{},
 		"C17": c17.H{},
